@@ -125,6 +125,14 @@ def render_operand(p, a, asy, names):
             call = "if yes() { %s } else { unreachable!() }" % call
         elif asy and a.op == "Src" and a.id % 8 == 7:
             call = "async move { %s.await }" % call   # an async block as the branch's first future
+    if a.op == "Src" and not a.cap and getattr(p, "_loopjump", False):
+        # operands of the sequential macros are part of the caller's function body: they may jump to a loop of the caller
+        # (never taken here; it has to compile, also when the invocation has several steps)
+        # the first of them takes its `continue` once (the caller's loop then goes on with its next iteration)
+        p._nloop = getattr(p, "_nloop", 0) + 1
+        if p._nloop == 1:
+            return "(if jump_once() { continue } else { %s })" % call
+        return "(if __lp > 5 { %s } else { %s })" % ("continue" if a.id % 2 else "break", call)
     if not a.cap and a.op != "SrcAwait" and getattr(p, "_frag", None) is not None and a.id % 2 == 0:
         # forwarded as a `$e:expr` fragment of a user macro_rules (reaches the proc macro as a None-delimited group)
         p._frag.append(call)
@@ -180,6 +188,13 @@ def frag_mode(p):
     return p.id % 5 == 2 and not any(b["named"] for b in p.branches)
 
 
+def loop_mode(p, kind):
+    """Every fifth program: under `join!` / `try_join!` the invocation stands in a `for` loop of the caller and its first values
+    contain a `continue` / `break` aimed at that loop."""
+    # (not with lazy branches: there the branch is a closure handed to the joiner, and a closure cannot jump out)
+    return kind in ("join", "try_join") and p.id % 5 == 4 and p.joiner == "None" and not frag_mode(p) and not any(b["named"] for b in p.branches)
+
+
 def wrap_hygiene(p, kind, body):
     """For hygiene mode: the invocation text uses `$aK` metavariables; wrap it into a local macro_rules.
     For forwarding mode: the whole token list is passed through `__fwd!`."""
@@ -201,6 +216,8 @@ def render_body(p, kind, hk):
     asy = kind in ASYNC_KINDS
     names = branch_names(p)
     p._frag = [] if frag_mode(p) else None
+    p._loopjump = loop_mode(p, kind)
+    p._nloop = 0
     parts = []
     for bi, b in enumerate(p.branches):
         s = ""
@@ -297,7 +314,10 @@ def render_prog(p, want_async=True, skip=()):
             lines.append("    pub fn k_%s() -> LocalFut { let f = %s; Box::pin(async move { norm(f.await) }) }" % (kind, wrap_hygiene(p, kind, body)))
             run = "Run::Async(p%d::k_%s)" % (p.id, kind)
         else:
-            lines.append("    pub fn k_%s() -> Out { norm(%s) }" % (kind, wrap_hygiene(p, kind, body)))
+            if loop_mode(p, kind):
+                lines.append("    pub fn k_%s() -> Out { for __lp in 0..3u8 { let __o = norm(%s); loop_iteration(__lp); return __o; } unreachable!() }" % (kind, wrap_hygiene(p, kind, body)))
+            else:
+                lines.append("    pub fn k_%s() -> Out { norm(%s) }" % (kind, wrap_hygiene(p, kind, body)))
             run = "Run::Sync(p%d::k_%s)" % (p.id, kind)
         hke = "None" if not hk else "Some(HK::%s)" % {"map": "Map", "and_then": "AndThen", "then": "Then"}[hk]
         cases.append("Case { prog: &p%d::PROG, kind: Kind::%s, hk: %s, run: %s }" % (p.id, KIND_ENUM[kind], hke, run))
